@@ -8,6 +8,7 @@ import (
 	"fmt"
 	"go/token"
 	"go/types"
+	"os"
 	"strings"
 
 	"golang.org/x/tools/go/ssa"
@@ -235,6 +236,24 @@ func init() {
 			}
 			if isEnginePanic(r) {
 				panic(r)
+			}
+			if os.Getenv("VERIF_DEBUG_PANIC") != "" {
+				msg := fmt.Sprint(r)
+				if tp, ok := r.(targetPanic); ok {
+					msg = toString(tp.v)
+					if m := errModel(tp.v); m != nil {
+						msg = m.msg
+					}
+				}
+				nd := ""
+				if i.path != nil {
+					for _, n := range i.path.nondets {
+						if n.Vars == nil {
+							nd += fmt.Sprintf(" %s=%d", n.Name, n.Conc)
+						}
+					}
+				}
+				fmt.Fprintf(os.Stderr, "vCatch: target panic: %s (in %s)%s\n", msg, i.lastFn, nd)
 			}
 			res = true
 		}()
